@@ -9,7 +9,7 @@
    heap h; reach = reachable by a path of PathElement.follow steps (the same under keys_ok).
    Hypotheses a statement does not need have been dropped. *)
 From Fiddle Require Import PyBase PySlice Sig ArgStore History PyCall Heap Traverse Build Build_stmt
-  Traverse_proofs Build_proofs Tags Tags_proofs Anchors.
+  Traverse_proofs Build_proofs Tags Tags_proofs.
 From Coq Require Import List Sorted.
 Import ListNotations.
 Local Open Scope nat_scope.
